@@ -110,7 +110,7 @@ func (self *TextCommandConverter) ConvertArgs2Flag(lockCommand *LockCommand, arg
 	for i := 0; i < len(args); i++ {
 		switch strings.ToUpper(args[i]) {
 		case "EX":
-			if i+i >= len(args) {
+			if i+1 >= len(args) {
 				return errors.New("Command Parse Args Count Error")
 			}
 			expried, err := strconv.ParseInt(args[i+1], 10, 64)
@@ -129,7 +129,7 @@ func (self *TextCommandConverter) ConvertArgs2Flag(lockCommand *LockCommand, arg
 			}
 			i++
 		case "PX":
-			if i+i >= len(args) {
+			if i+1 >= len(args) {
 				return errors.New("Command Parse Args Count Error")
 			}
 			expried, err := strconv.ParseInt(args[i+1], 10, 64)
@@ -151,7 +151,7 @@ func (self *TextCommandConverter) ConvertArgs2Flag(lockCommand *LockCommand, arg
 			}
 			i++
 		case "TX":
-			if i+i >= len(args) {
+			if i+1 >= len(args) {
 				return errors.New("Command Parse Args Count Error")
 			}
 			timeout, err := strconv.ParseInt(args[i+1], 10, 64)
@@ -170,7 +170,7 @@ func (self *TextCommandConverter) ConvertArgs2Flag(lockCommand *LockCommand, arg
 			}
 			i++
 		case "PTX":
-			if i+i >= len(args) {
+			if i+1 >= len(args) {
 				return errors.New("Command Parse Args Count Error")
 			}
 			timeout, err := strconv.ParseInt(args[i+1], 10, 64)
@@ -550,7 +550,7 @@ func (self *TextCommandConverter) WriteTextSetNXCommandResult(_ ITextProtocol, s
 }
 
 func (self *TextCommandConverter) ConvertTextSetEXCommand(textProtocol ITextProtocol, args []string) (*LockCommand, WriteTextCommandResultFunc, error) {
-	if len(args) < 3 {
+	if len(args) < 4 {
 		return nil, nil, errors.New("Command Parse Args Count Error")
 	}
 
